@@ -429,8 +429,9 @@ def run(tier):
         "int8 exists only with the cosine metric, and a cosine index stores the UNIT vector for every precision: the read-back law of the "
         "int8 index is q_i = clip(roundHalfAway(127 * (x_i/|x|) / AbsMax), +-127) * AbsMax/127, decided by TLC on cross-multiplied squared integers "
         "(both neighbours admitted when a rounding boundary is closer than 1e-5 relative); the raw-vector law (clip, never wrap) is checked on "
-        "distance.Quantizer itself incl. magnitudes 2^24 and 2^30 times the unit; the index distance is decided from the integers the index "
-        "really returns and the raw-quantised query (ComputeDistanceToVector does not normalise an int8 query; only hnsw search does)",
+        "distance.Quantizer itself incl. magnitudes 2^24 and 2^30 times the unit; the index distance (ComputeDistanceToVector) is the cosine "
+        "distance between the integers the index really returns and the quantised UNIT query (same admissible-integer sets; any admissible "
+        "combination is accepted where a rounding boundary of the query is ambiguous)",
         "NOT decided: tolerance bounds of kernels/quantiser for general float magnitudes (denormal..large, NaN/Inf, float16 overflow "
         "beyond 65504) and the clause 'compression perturbs rankings only among near-ties' for general data - only lattice instances "
         "(integers |c| <= 127 resp. n/4096, dimensions 0..4, AbsMax in {1,2,3,127,254,381}/{1,4}) are decided, where the spec's integers are exact",
